@@ -1,4 +1,4 @@
-import GrinVerif.Lemmas.ConsDiff
+import GrinVerif.Lemmas.ConsHeader
 /-! # C04 — only headers obeying height, time, version, difficulty and PoW rules pass
 
 Property theorems about the model `GV.Cons` (`Model/Cons.lean`) of `consensus.rs`,
@@ -135,6 +135,37 @@ theorem dma_antitone_in_span (d d' s : Nat) (hdd : d ≤ d')
   generalize MIN_DMA_DIFFICULTY = m
   omega
 
+/-- `dma_bounds` without the wrapping helper: if `S · 60` fits `u64` the result lies between half
+the window average `S/60` and twice it (1.5 × when the span does not wrap), floor-divided. -/
+theorem dma_bounds_nowrap (tsDelta s : Nat) (hs : s * BLOCK_TIME_SEC < 2^64) :
+    s / 120 ≤ dmaDiff tsDelta s ∧ dmaDiff tsDelta s ≤ max MIN_DMA_DIFFICULTY (s / 30) ∧
+    (tsDelta + (DMA_DAMP_FACTOR - 1) * BLOCK_TIME_WINDOW < 2^64 →
+      dmaDiff tsDelta s ≤ max MIN_DMA_DIFFICULTY (s / 40)) := by
+  unfold dmaDiff fromNum
+  rw [mulW_eq hs, BLOCK_TIME_SEC_val]
+  have hb := dmaAdjTs_bounds tsDelta
+  have hp := dmaAdjTs_pos tsDelta
+  rw [BLOCK_TIME_WINDOW_val, CLAMP_FACTOR_val] at hb
+  have h1 : s * 60 / (3600 * 2) ≤ s * 60 / dmaAdjTs tsDelta := Nat.div_le_div_left hb.2 hp
+  have h2 : s * 60 / dmaAdjTs tsDelta ≤ s * 60 / (3600 / 2) := Nat.div_le_div_left hb.1 (by decide)
+  have h3 : tsDelta + (DMA_DAMP_FACTOR - 1) * BLOCK_TIME_WINDOW < 2^64 →
+      s * 60 / dmaAdjTs tsDelta ≤ s * 60 / 2400 := fun hnw => by
+    have := dmaAdjTs_lower_nowrap tsDelta hnw
+    rw [DMA_DAMP_FACTOR_val, BLOCK_TIME_WINDOW_val] at this
+    exact Nat.div_le_div_left this (by decide)
+  have e1 : s * 60 / (3600 * 2) = s / 120 := by omega
+  have e2 : s * 60 / (3600 / 2) = s / 30 := by omega
+  have e3 : s * 60 / 2400 = s / 40 := by omega
+  rw [e1] at h1; rw [e2] at h2; rw [e3] at h3
+  have hmin := MIN_DMA_DIFFICULTY_pos
+  revert h1 h2 h3 hmin
+  generalize s * 60 / dmaAdjTs tsDelta = q
+  generalize MIN_DMA_DIFFICULTY = m
+  intro h1 h2 h3 hmin
+  refine ⟨by omega, by omega, fun hnw => ?_⟩
+  have := h3 hnw
+  omega
+
 /-- non-vacuity: one genesis entry, padded to 61; `60·1000·60/3600 = 1000` -/
 example : nextDmaDifficulty .mainnet 1 [⟨1000000, 1000, 1856, false⟩] = some ⟨1, 1000, 1843, true⟩ := by
   decide +kernel
@@ -195,6 +226,11 @@ theorem wtema_antitone_in_block_time (ct : ChainType) (last last' prev : HDI)
 example : nextWtemaDifficulty .mainnet [⟨1060, 1000000, 0, false⟩, ⟨1000, 999, 0, false⟩] =
     some ⟨1, 1000000, 0, true⟩ := by decide +kernel
 
+/-- The WTEMA product `last_diff * WTEMA_HALF_LIFE` is a plain `u64` multiplication: above
+`2^64 / 14400 ≈ 1.28e15` it wraps (release) and the next difficulty collapses to the minimum. -/
+example : nextWtemaDifficulty .mainnet [⟨1060, 2^64 / 14400 + 1, 0, false⟩, ⟨1000, 5, 0, false⟩] =
+    some ⟨1, 16384, 0, true⟩ := by decide +kernel
+
 /-! ## secondary scaling bounds -/
 
 /-- `secondary_pow_scaling` is total; the damped, clamped count stays within a factor
@@ -243,4 +279,395 @@ example : headerVersion .automatedTesting (65535 * TESTING_HARD_FORK_INTERVAL) =
 example : headerVersion .mainnet (4 * HARD_FORK_INTERVAL) = 5 := by decide +kernel
 example : headerVersion .mainnet (4 * HARD_FORK_INTERVAL - 1) = 4 := by decide +kernel
 
+/-! ## `validate_header`: the decision logic stated outright
+
+The rules as propositions (`HeaderRules`, `DifficultyRules`) and the order of the checks
+(`errRank`, `passedBeyond`) are defined in `Lemmas/ConsHeader.lean`. -/
+
+/-- **Soundness and completeness of acceptance**: `validate_header` accepts exactly the headers
+that satisfy every rule. -/
+theorem validate_header_iff (c : Ctx) (h : Hdr) :
+    validateHeader c h = .ok () ↔ HeaderRules c h := by
+  unfold validateHeader HeaderRules
+  by_cases h1 : c.denied = true
+  · simp [h1]
+  rw [if_neg h1]
+  have h1' : c.denied = false := by simpa using h1
+  cases hp : c.prev with
+  | none => simp
+  | some prev =>
+    simp only [h1', true_and, Option.some.injEq, exists_eq_left']
+    by_cases h2 : ¬ h.height = addW prev.height 1
+    · simp [h2]
+    have h2 : h.height = addW prev.height 1 := by simpa using h2
+    rw [if_neg (by simpa using h2)]
+    by_cases h3 : ¬ h.version = headerVersion c.ct h.height
+    · simp [h3, validHeaderVersion]
+    have h3 : h.version = headerVersion c.ct h.height := by simpa using h3
+    rw [if_neg (by simp [validHeaderVersion, h3])]
+    by_cases h4 : ¬ prev.ts < h.ts
+    · have : h.ts ≤ prev.ts := by omega
+      simp [h4, this]
+    have h4 : prev.ts < h.ts := by simpa using h4
+    rw [if_neg (by omega)]
+    split
+    · rename_i h5
+      simp only [numNew, satSub] at h5
+      simp only [reduceCtorEq, false_iff]
+      intro hc
+      have := hc.2.2.2.1
+      have := hc.2.2.2.2.1
+      omega
+    rename_i h5
+    simp only [numNew, satSub] at h5
+    have h5a : Pmmr.nLeaves prev.outputMmrSize < Pmmr.nLeaves h.outputMmrSize := by omega
+    have h5b : Pmmr.nLeaves prev.kernelMmrSize < Pmmr.nLeaves h.kernelMmrSize := by omega
+    split
+    · rename_i h6
+      simp only [numNew, satSub] at h6
+      simp only [reduceCtorEq, false_iff]
+      intro hc
+      have := hc.2.2.2.2.2.1
+      omega
+    rename_i h6
+    simp only [numNew, satSub] at h6
+    have h6' := Nat.le_of_not_gt h6
+    simp only [eq_true h2, eq_true h3, eq_true h4, eq_true h5a, eq_true h5b, eq_true h6', true_and]
+    split
+    · rename_i h7
+      simp [h7]
+    rename_i h7
+    have h7' : c.skipPow = false := by simpa using h7
+    simp only [h7', true_implies]
+    exact validate_difficulty_iff c prev h
+
+/-- `validate_header … = ok →` every rule holds (the statement of DESIGN §4 C04). -/
+theorem validate_header_sound (c : Ctx) (h : Hdr) (hv : validateHeader c h = .ok ()) :
+    HeaderRules c h :=
+  (validate_header_iff c h).mp hv
+
+/-- a header violating any rule is rejected with some error -/
+theorem validate_header_complete (c : Ctx) (h : Hdr) (hv : ¬ HeaderRules c h) :
+    ∃ e, validateHeader c h = .error e := by
+  cases hr : validateHeader c h with
+  | error e => exact ⟨e, rfl⟩
+  | ok u => cases u; exact absurd ((validate_header_iff c h).mp hr) hv
+
+/-- **Which checks a result has passed.**  If `validate_header` accepts, or rejects with an error
+of a check later than check `k`, then rule `k` holds.  Read contrapositively: a header violating
+rule `k` is rejected with an error of rank ≤ `k` (that rule's error or one of an earlier check). -/
+theorem validate_header_prefix (c : Ctx) (h : Hdr) :
+    (passedBeyond (validateHeader c h) 0 → c.denied = false) ∧
+    (passedBeyond (validateHeader c h) 1 → ∃ prev, c.prev = some prev ∧
+      (passedBeyond (validateHeader c h) 2 → h.height = addW prev.height 1) ∧
+      (passedBeyond (validateHeader c h) 3 → h.version = headerVersion c.ct h.height) ∧
+      (passedBeyond (validateHeader c h) 4 → prev.ts < h.ts) ∧
+      (passedBeyond (validateHeader c h) 5 →
+        Pmmr.nLeaves prev.outputMmrSize < Pmmr.nLeaves h.outputMmrSize ∧
+        Pmmr.nLeaves prev.kernelMmrSize < Pmmr.nLeaves h.kernelMmrSize) ∧
+      (passedBeyond (validateHeader c h) 6 →
+        weightByIok 0 (Pmmr.nLeaves h.outputMmrSize - Pmmr.nLeaves prev.outputMmrSize)
+          (Pmmr.nLeaves h.kernelMmrSize - Pmmr.nLeaves prev.kernelMmrSize) ≤ maxBlockWeight c.ct) ∧
+      (c.skipPow = false →
+        (passedBeyond (validateHeader c h) 7 →
+          isPrimary c.ct h.edgeBits = true ∨ isSecondary h.edgeBits = true) ∧
+        (passedBeyond (validateHeader c h) 8 → c.powOk = true) ∧
+        (passedBeyond (validateHeader c h) 9 → prev.totalDiff < h.totalDiff ∧
+          h.totalDiff - prev.totalDiff ≤ toDifficulty c.ct h.height h.edgeBits h.secondaryScaling h.hash64) ∧
+        (passedBeyond (validateHeader c h) 10 →
+          ∃ next, nextDifficulty c.ct h.height c.window = some next ∧
+            (passedBeyond (validateHeader c h) 11 → h.totalDiff - prev.totalDiff = next.diff) ∧
+            (passedBeyond (validateHeader c h) 12 → h.version < 5 → h.secondaryScaling = next.scaling)))) := by
+  generalize hr : validateHeader c h = r
+  unfold validateHeader at hr
+  split at hr
+  · subst hr; simp [passedBeyond, errRank]
+  rename_i h1
+  have h1' : c.denied = false := by simpa using h1
+  split at hr
+  · subst hr; simp [passedBeyond, errRank, h1']
+  rename_i prev hp
+  refine ⟨fun _ => h1', fun _ => ⟨prev, hp, ?_⟩⟩
+  split at hr
+  · subst hr; simp [passedBeyond, errRank]
+  rename_i h2
+  have h2' : h.height = addW prev.height 1 := by simpa using h2
+  split at hr
+  · subst hr; simp [passedBeyond, errRank, h2']
+  rename_i h3
+  have h3' : h.version = headerVersion c.ct h.height := by simpa [validHeaderVersion] using h3
+  split at hr
+  · subst hr; simp [passedBeyond, errRank, h2', h3']
+  rename_i h4
+  have h4' : prev.ts < h.ts := by omega
+  split at hr
+  · subst hr; simp [passedBeyond, errRank, h2', h3', h4']
+  rename_i h5
+  simp only [numNew, satSub] at h5
+  have h5a : Pmmr.nLeaves prev.outputMmrSize < Pmmr.nLeaves h.outputMmrSize := by omega
+  have h5b : Pmmr.nLeaves prev.kernelMmrSize < Pmmr.nLeaves h.kernelMmrSize := by omega
+  split at hr
+  · subst hr; simp [passedBeyond, errRank, h2', h3', h4', h5a, h5b]
+  rename_i h6
+  simp only [numNew, satSub] at h6
+  have h6' := Nat.le_of_not_gt h6
+  refine ⟨fun _ => h2', fun _ => h3', fun _ => h4', fun _ => ⟨h5a, h5b⟩, fun _ => h6', ?_⟩
+  intro hskip
+  rw [if_neg (by simp [hskip])] at hr
+  subst hr
+  exact validate_difficulty_prefix c prev h
+
+/-- the rules a result has got past, with the parent fixed (flat form of `validate_header_prefix`) -/
+theorem rules_of_passed (c : Ctx) (h prev : Hdr) (hp : c.prev = some prev) :
+    (passedBeyond (validateHeader c h) 2 → h.height = addW prev.height 1) ∧
+    (passedBeyond (validateHeader c h) 3 → h.version = headerVersion c.ct h.height) ∧
+    (passedBeyond (validateHeader c h) 4 → prev.ts < h.ts) ∧
+    (passedBeyond (validateHeader c h) 5 →
+      Pmmr.nLeaves prev.outputMmrSize < Pmmr.nLeaves h.outputMmrSize ∧
+      Pmmr.nLeaves prev.kernelMmrSize < Pmmr.nLeaves h.kernelMmrSize) ∧
+    (passedBeyond (validateHeader c h) 6 →
+      weightByIok 0 (Pmmr.nLeaves h.outputMmrSize - Pmmr.nLeaves prev.outputMmrSize)
+        (Pmmr.nLeaves h.kernelMmrSize - Pmmr.nLeaves prev.kernelMmrSize) ≤ maxBlockWeight c.ct) ∧
+    (c.skipPow = false →
+      (passedBeyond (validateHeader c h) 7 →
+        isPrimary c.ct h.edgeBits = true ∨ isSecondary h.edgeBits = true) ∧
+      (passedBeyond (validateHeader c h) 8 → c.powOk = true) ∧
+      (passedBeyond (validateHeader c h) 9 → prev.totalDiff < h.totalDiff ∧
+        h.totalDiff - prev.totalDiff ≤ toDifficulty c.ct h.height h.edgeBits h.secondaryScaling h.hash64) ∧
+      (passedBeyond (validateHeader c h) 10 → nextDifficulty c.ct h.height c.window ≠ none) ∧
+      (∀ next, nextDifficulty c.ct h.height c.window = some next →
+        (passedBeyond (validateHeader c h) 11 → h.totalDiff - prev.totalDiff = next.diff) ∧
+        (passedBeyond (validateHeader c h) 12 → h.version < 5 → h.secondaryScaling = next.scaling))) := by
+  have key : ∀ k, 1 ≤ k → passedBeyond (validateHeader c h) k → _ := fun k hk hpk =>
+    (validate_header_prefix c h).2 (passedBeyond_mono hk hpk)
+  refine ⟨fun hk => ?_, fun hk => ?_, fun hk => ?_, fun hk => ?_, fun hk => ?_, fun hs => ⟨fun hk => ?_,
+    fun hk => ?_, fun hk => ?_, fun hk => ?_, fun next hn => ⟨fun hk => ?_, fun hk => ?_⟩⟩⟩
+  all_goals
+    obtain ⟨p, hp', r2, r3, r4, r5, r6, rs⟩ := key _ (by omega) hk
+    rw [hp] at hp'
+    cases hp'
+  · exact r2 hk
+  · exact r3 hk
+  · exact r4 hk
+  · exact r5 hk
+  · exact r6 hk
+  · exact (rs hs).1 hk
+  · exact (rs hs).2.1 hk
+  · exact (rs hs).2.2.1 hk
+  · obtain ⟨n, hn, _⟩ := (rs hs).2.2.2 hk
+    simp [hn]
+  · obtain ⟨n, hn', r11, _⟩ := (rs hs).2.2.2 (passedBeyond_mono (by omega) hk)
+    rw [hn] at hn'; cases hn'
+    exact r11 hk
+  · obtain ⟨n, hn', _, r12⟩ := (rs hs).2.2.2 (passedBeyond_mono (by omega) hk)
+    rw [hn] at hn'; cases hn'
+    exact r12 hk
+
+/-- **Per-rule completeness** (each rule violated ⇒ rejected with an error of that rule's set):
+a header violating a rule is rejected, and the error is the one of that rule's check or of a
+check the code performs earlier (`errRank e ≤` the rule's position).  The set is needed because
+an earlier check may fire first; `validate_header_iff` shows nothing else can. -/
+theorem validate_header_complete_by_rule (c : Ctx) (h prev : Hdr) (hp : c.prev = some prev) :
+    (h.height ≠ addW prev.height 1 → ∃ e, validateHeader c h = .error e ∧ errRank e ≤ 2) ∧
+    (h.version ≠ headerVersion c.ct h.height → ∃ e, validateHeader c h = .error e ∧ errRank e ≤ 3) ∧
+    (h.ts ≤ prev.ts → ∃ e, validateHeader c h = .error e ∧ errRank e ≤ 4) ∧
+    (Pmmr.nLeaves h.outputMmrSize ≤ Pmmr.nLeaves prev.outputMmrSize ∨
+      Pmmr.nLeaves h.kernelMmrSize ≤ Pmmr.nLeaves prev.kernelMmrSize →
+        ∃ e, validateHeader c h = .error e ∧ errRank e ≤ 5) ∧
+    (maxBlockWeight c.ct < weightByIok 0 (Pmmr.nLeaves h.outputMmrSize - Pmmr.nLeaves prev.outputMmrSize)
+        (Pmmr.nLeaves h.kernelMmrSize - Pmmr.nLeaves prev.kernelMmrSize) →
+        ∃ e, validateHeader c h = .error e ∧ errRank e ≤ 6) ∧
+    (c.skipPow = false →
+      (isPrimary c.ct h.edgeBits = false ∧ isSecondary h.edgeBits = false →
+        ∃ e, validateHeader c h = .error e ∧ errRank e ≤ 7) ∧
+      (c.powOk = false → ∃ e, validateHeader c h = .error e ∧ errRank e ≤ 8) ∧
+      (h.totalDiff ≤ prev.totalDiff ∨
+        toDifficulty c.ct h.height h.edgeBits h.secondaryScaling h.hash64 < h.totalDiff - prev.totalDiff →
+        ∃ e, validateHeader c h = .error e ∧ errRank e ≤ 9) ∧
+      (∀ next, nextDifficulty c.ct h.height c.window = some next →
+        (h.totalDiff - prev.totalDiff ≠ next.diff → ∃ e, validateHeader c h = .error e ∧ errRank e ≤ 11) ∧
+        (h.version < 5 ∧ h.secondaryScaling ≠ next.scaling →
+          ∃ e, validateHeader c h = .error e ∧ errRank e ≤ 12))) := by
+  obtain ⟨r2, r3, r4, r5, r6, rs⟩ := rules_of_passed c h prev hp
+  refine ⟨fun hv => ?_, fun hv => ?_, fun hv => ?_, fun hv => ?_, fun hv => ?_, fun hs => ⟨fun hv => ?_,
+    fun hv => ?_, fun hv => ?_, fun next hn => ⟨fun hv => ?_, fun hv => ?_⟩⟩⟩
+  · rcases passed_or_rejected (validateHeader c h) 2 with hk | hk
+    · exact absurd (r2 hk) hv
+    · exact hk
+  · rcases passed_or_rejected (validateHeader c h) 3 with hk | hk
+    · exact absurd (r3 hk) hv
+    · exact hk
+  · rcases passed_or_rejected (validateHeader c h) 4 with hk | hk
+    · have := r4 hk; omega
+    · exact hk
+  · rcases passed_or_rejected (validateHeader c h) 5 with hk | hk
+    · have := r5 hk; omega
+    · exact hk
+  · rcases passed_or_rejected (validateHeader c h) 6 with hk | hk
+    · have := r6 hk; omega
+    · exact hk
+  · rcases passed_or_rejected (validateHeader c h) 7 with hk | hk
+    · have := (rs hs).1 hk; simp [hv.1, hv.2] at this
+    · exact hk
+  · rcases passed_or_rejected (validateHeader c h) 8 with hk | hk
+    · have := (rs hs).2.1 hk; simp [hv] at this
+    · exact hk
+  · rcases passed_or_rejected (validateHeader c h) 9 with hk | hk
+    · have := (rs hs).2.2.1 hk; omega
+    · exact hk
+  · rcases passed_or_rejected (validateHeader c h) 11 with hk | hk
+    · exact absurd (((rs hs).2.2.2.2 next hn).1 hk) hv
+    · exact hk
+  · rcases passed_or_rejected (validateHeader c h) 12 with hk | hk
+    · exact absurd (((rs hs).2.2.2.2 next hn).2 hk hv.1) hv.2
+    · exact hk
+
+/-- the model's `Panic` outcome arises only from `next_difficulty` panicking -/
+theorem panic_only_from_next_difficulty (c : Ctx) (h : Hdr)
+    (hv : validateHeader c h = .error .Panic) : nextDifficulty c.ct h.height c.window = none := by
+  unfold validateHeader at hv
+  repeat' split at hv
+  all_goals first | cases hv | skip
+  exact difficulty_panic c _ h hv
+
+/-- `validate_header` cannot hit the panics of `next_difficulty`: the window always contains the
+parent (DMA era: enough), and in the WTEMA era it needs the two latest entries with non-decreasing
+in-range timestamps (the time rule, applied when the parent itself was validated). -/
+theorem validate_header_no_panic (c : Ctx) (h : Hdr) (last prev : HDI) (rest : List HDI)
+    (hw : c.window = last :: prev :: rest) (hle : prev.ts ≤ last.ts)
+    (hr : last.ts + WTEMA_HALF_LIFE < 2^64) : validateHeader c h ≠ .error .Panic := by
+  intro hv
+  have hn := next_difficulty_total c.ct h.height last prev rest hle hr
+  rw [← hw, panic_only_from_next_difficulty c h hv] at hn
+  cases hn
+
+/-- in the DMA era a non-empty window suffices -/
+theorem validate_header_no_panic_dma (c : Ctx) (h : Hdr) (hv5 : headerVersion c.ct h.height < 5)
+    (hw : c.window ≠ []) : validateHeader c h ≠ .error .Panic := by
+  intro hv
+  have hn := next_difficulty_total_dma c.ct h.height c.window hv5 hw
+  rw [panic_only_from_next_difficulty c h hv] at hn
+  cases hn
+
+
+
+/-! ## the pipeline around `validate_header` -/
+
+/-- `process_block_header` (after its "already known" short-cuts) accepts only headers that obey
+every rule **and** whose `prev_root` is the root of the header MMR at the parent
+(`HeaderExtension::validate_root`; the MMR itself is C07). -/
+theorem process_block_header_sound (c : Ctx) (rootOk : Bool) (h : Hdr)
+    (hv : processBlockHeader c rootOk h = .ok ()) : HeaderRules c h ∧ rootOk = true := by
+  unfold processBlockHeader at hv
+  split at hv
+  · cases hv
+  · rename_i hvh
+    split at hv
+    · rename_i hr
+      exact ⟨(validate_header_iff c h).mp hvh, hr⟩
+    · cases hv
+
+/-- a header with a wrong `prev_root` that passes every other rule is rejected with `InvalidRoot` -/
+theorem process_block_header_bad_root (c : Ctx) (h : Hdr) (hr : HeaderRules c h) :
+    processBlockHeader c false h = .error .InvalidRoot := by
+  unfold processBlockHeader
+  rw [(validate_header_iff c h).mpr hr]
+  rfl
+
+/-- Network decode (`UntrustedBlockHeader::read`): a header is admitted only if its timestamp is
+not beyond `now + future_time_limit`, it carries the scheduled version, its edge bits are an
+allowed size, its proof of work verifies and the committed MMR sizes fit `height + 1` full
+blocks. -/
+theorem untrusted_header_sound (ct : ChainType) (now : Int) (ftl : Nat) (sizeOk : Bool) (h : Hdr)
+    (hv : untrustedHeaderCheck ct now ftl sizeOk h = .ok ()) :
+    h.ts ≤ now + ftl ∧ h.version = headerVersion ct h.height ∧
+    (isPrimary ct h.edgeBits = true ∨ isSecondary h.edgeBits = true) ∧ sizeOk = true ∧
+    weightByIok 0 (Pmmr.nLeaves h.outputMmrSize) (Pmmr.nLeaves h.kernelMmrSize) ≤
+      mulW (maxBlockWeight ct) (addW h.height 1) := by
+  unfold untrustedHeaderCheck at hv
+  split at hv
+  · cases hv
+  rename_i h1
+  split at hv
+  · cases hv
+  rename_i h2
+  split at hv
+  · cases hv
+  rename_i h3
+  split at hv
+  · cases hv
+  rename_i h4
+  dsimp only at hv
+  split at hv
+  · cases hv
+  rename_i h5
+  refine ⟨by omega, by simpa [validHeaderVersion] using h2, ?_, by simpa using h4, by omega⟩
+  cases hA : isPrimary ct h.edgeBits <;> cases hB : isSecondary h.edgeBits <;> simp_all
+
+/-- a header dated beyond the future-time limit is refused at decode time whatever else it says -/
+theorem untrusted_header_future_rejected (ct : ChainType) (now : Int) (ftl : Nat) (sizeOk : Bool)
+    (h : Hdr) (hf : now + ftl < h.ts) :
+    untrustedHeaderCheck ct now ftl sizeOk h = .error .CorruptedData := by
+  unfold untrustedHeaderCheck
+  rw [if_pos (by omega)]
+
+/-! ## non-vacuity: a concrete accepted header and single-field mutations of it -/
+
+/-- parent at height 1 on the AutomatedTesting chain, its difficulty window, a context -/
+def exPrev : Hdr := ⟨1, 1060, 1, 3, 20, 10, 12345, 3, 3⟩
+def exWindow : List HDI := [⟨1060, 2, 20, false⟩, ⟨1000, 1, 20, false⟩]
+def exCtx : Ctx := ⟨.automatedTesting, false, some exPrev, exWindow, false, true⟩
+/-- a header satisfying every rule (network difficulty 3, scaling 19, proof difficulty 320) -/
+def exHdr : Hdr := ⟨2, 1120, 1, 6, 19, 10, 2^60, 4, 4⟩
+
+example : HeaderRules exCtx exHdr := (validate_header_iff _ _).mp (by decide +kernel)
+example : validateHeader exCtx { exHdr with height := 3 } = .error .InvalidBlockHeight := by decide +kernel
+example : validateHeader exCtx { exHdr with version := 2 } = .error .InvalidBlockVersion := by decide +kernel
+example : validateHeader exCtx { exHdr with ts := 1060 } = .error .InvalidBlockTime := by decide +kernel
+example : validateHeader exCtx { exHdr with kernelMmrSize := 3 } = .error .InvalidMMRSize := by decide +kernel
+example : validateHeader exCtx { exHdr with outputMmrSize := 40 } = .error .TooHeavy := by decide +kernel
+example : validateHeader exCtx { exHdr with edgeBits := 9 } = .error .LowEdgebits := by decide +kernel
+example : validateHeader { exCtx with powOk := false } exHdr = .error .InvalidPow := by decide +kernel
+example : validateHeader exCtx { exHdr with totalDiff := 3 } = .error .DifficultyTooLow := by decide +kernel
+example : validateHeader exCtx { exHdr with totalDiff := 7 } = .error .WrongTotalDifficulty := by decide +kernel
+example : validateHeader exCtx { exHdr with totalDiff := 5 } = .error .WrongTotalDifficulty := by decide +kernel
+example : validateHeader exCtx { exHdr with secondaryScaling := 20 } = .error .InvalidScaling := by decide +kernel
+example : validateHeader { exCtx with prev := none } exHdr = .error .Orphan := by decide +kernel
+
+/-! ## the chain always supplies a window on which the retarget is total -/
+
+/-- `DifficultyIter` yields one entry per header -/
+theorem difficultyIter_length (hs : List Hdr) : (difficultyIter hs).length = hs.length := by
+  induction hs with
+  | nil => rfl
+  | cons a t ih => simp [difficultyIter, ih]
+
+theorem tsU64_of_nonneg {t : Int} (h0 : 0 ≤ t) (h1 : t < 2^63) : (tsU64 t : Int) = t := by
+  unfold tsU64
+  have : t % (2^64 : Int) = t := Int.emod_eq_of_lt h0 (by omega)
+  rw [this]
+  omega
+
+/-- The window the chain hands to `next_difficulty` for a parent `a` with grand-parent `b`
+(both previously validated: `b.ts < a.ts`, timestamps in the decodable range) satisfies the
+precondition of `next_difficulty_total`. -/
+theorem window_of_chain_ok (a b : Hdr) (rest : List Hdr) (h0 : 0 ≤ b.ts) (hlt : b.ts < a.ts)
+    (hr : a.ts < 2^63) :
+    ∃ last prev w, difficultyIter (a :: b :: rest) = last :: prev :: w ∧ prev.ts ≤ last.ts ∧
+      last.ts + WTEMA_HALF_LIFE < 2^64 := by
+  refine ⟨_, _, _, rfl, ?_, ?_⟩
+  · have ha := tsU64_of_nonneg (t := a.ts) (by omega) hr
+    have hb := tsU64_of_nonneg (t := b.ts) h0 (by omega)
+    simp only
+    omega
+  · have ha := tsU64_of_nonneg (t := a.ts) (by omega) hr
+    simp only [WTEMA_HALF_LIFE_val]
+    omega
+
+/-- Hence on a chain `validate_header` never reaches a panic of the retarget. -/
+theorem validate_header_no_panic_on_chain (c : Ctx) (h a b : Hdr) (rest : List Hdr)
+    (hw : c.window = difficultyIter (a :: b :: rest)) (h0 : 0 ≤ b.ts) (hlt : b.ts < a.ts)
+    (hr : a.ts < 2^63) : validateHeader c h ≠ .error .Panic := by
+  obtain ⟨last, prev, w, he, hle, hrr⟩ := window_of_chain_ok a b rest h0 hlt hr
+  exact validate_header_no_panic c h last prev w (by rw [hw, he]) hle hrr
 end GV.Props.C04
